@@ -32,13 +32,12 @@ def unit_cmdnext(twin=False):
                           tm.and_(tm.or_(tm.not_(tm.to_bool(found)), match), tm.or_(tm.not_(match), tm.to_bool(found))))
         w = writes(s, ("f", "loopbase", "P"))
         frees = [e for e in U.iter_events(s) if e.name.endswith("PHRQ_free")]
-        if B.z3_prove(hy, match)[0] == "proved":
-            r.add("search.matching_record_kept", DISCHARGED if not w and not frees else FAILED, "symex", 0, repr(w)[:100], kind="frame")
-        elif B.z3_prove(hy, tm.not_(match))[0] == "proved":
-            ok = len(w) == 1 and w[0][1] is fld0(ex, s, "next", "P", lb0) and len(frees) == 1 and frees[0].args[0] is lb0
-            r.add("search.stale_record_popped_and_freed", DISCHARGED if ok else FAILED, "symex", 0, "%r %r" % (w, [e.args for e in frees]), kind="post")
-        else:
-            r.add("search.case_decided", UNDECIDED, "z3", 0, repr(s.pc)[:200])
+        for hy_, matches in cases(hy, match):
+            if matches:
+                r.add("search.matching_record_kept", DISCHARGED if not w and not frees else FAILED, "symex", 0, repr(w)[:100], kind="frame")
+            else:
+                ok = len(w) == 1 and w[0][1] is fld0(ex, s, "next", "P", lb0) and len(frees) == 1 and frees[0].args[0] is lb0
+                r.add("search.stale_record_popped_and_freed", DISCHARGED if ok else FAILED, "symex", 0, "%r %r" % (w, [e.args for e in frees]), kind="post")
     r.add("reach.search", DISCHARGED if n >= 2 else UNDECIDED, "symex", 0, "%d" % n, kind="vacuity")
     # the loop ends only when found: condition of the do-while
     loops = [x for x in A.walk(fn) if x.get("kind") == "DoStmt"]
